@@ -126,19 +126,23 @@ def gen_eventual(out):
     out.append("Definition ev_iter_order : iterorder := %s.   (* for cb, args, kwargs in %s *)" % (order, ast.unparse(loop.iter)))
     lb = loop.body
     callsrc = "cb(*args, **kwargs)"
+    out.append("Inductive catchmode := CatchAll | CatchException | CatchNone.")
     if len(lb) == 1 and isinstance(lb[0], ast.Try):
         t = lb[0]
         if len(t.body) != 1 or ast.unparse(t.body[0]) != callsrc or t.orelse or t.finalbody or len(t.handlers) != 1:
             raise U("_turn: unexpected try statement around the call")
         h = t.handlers[0]
-        if h.type is not None and ast.unparse(h.type) not in ("Exception", "BaseException"):
-            raise U("_turn: the handler only catches %s" % ast.unparse(h.type))
         for x in walk_stmts(h.body):
             if isinstance(x, (ast.Raise, ast.Return, ast.Break)):
                 raise U("_turn: the handler leaves the loop")
-        out.append("Definition ev_catch : bool := true.   (* try: cb(..) except: log.err() *)")
+        if h.type is None or ast.unparse(h.type) == "BaseException":
+            out.append("Definition ev_catch : catchmode := CatchAll.   (* try: cb(..) except: log.err() -- catches every BaseException *)")
+        elif ast.unparse(h.type) == "Exception":
+            out.append("Definition ev_catch : catchmode := CatchException.   (* except Exception: SystemExit, KeyboardInterrupt, GeneratorExit, ... pass through *)")
+        else:
+            raise U("_turn: the handler only catches %s" % ast.unparse(h.type))
     elif len(lb) == 1 and ast.unparse(lb[0]) == callsrc:
-        out.append("Definition ev_catch : bool := false.  (* the call is no longer wrapped in try/except *)")
+        out.append("Definition ev_catch : catchmode := CatchNone.  (* the call is no longer wrapped in try/except *)")
     else:
         raise U("_turn: unexpected loop body")
     # observers: how the flush Deferreds are fired after the batch
